@@ -740,8 +740,21 @@ def rule_walkup(ctx, prop):
             xdg = [b for b, t in f.calls() if callee(t).endswith("search_config_locations")]
             eqs = [(b, t) for b, t in f.calls() if callee(t).endswith("PartialEq>::eq") and "Option<&std::path::Path>" in (t.get("fn") or "")]
             isn = [(b, t) for b, t in f.calls() if callee(t).endswith("Option::<T>::is_none")]
-            if rep.anchor(len(look) == 1 and len(rec) == 1 and len(xdg) == 1 and len(eqs) == 1 and len(isn) == 1,
-                          f"find_config_file shape (lookup={len(look)} rec={len(rec)} xdg={len(xdg)} eq={len(eqs)} is_none={len(isn)})", cfg):
+            shape_ok = rep.anchor(len(look) == 1 and len(rec) == 1 and len(xdg) == 1,
+                                  f"find_config_file shape (lookup={len(look)} rec={len(rec)} xdg={len(xdg)})", cfg)
+            if shape_ok and not (len(eqs) == 1 and len(isn) == 1):
+                # the stop test is not `Some(directory) == root || parent.is_none()`: say what decides instead
+                deciding = sorted({callee(t).split("::")[-1] for b, t in f.calls()
+                                   if f.local_ty(t["dst"]["l"]) == "bool" and bool_edge(f, b) is not None
+                                   and not span_macros(t.get("sp"))})
+                rep.inst(f"{f.key} stops-at-root-or-fs-root", {"deciding_calls": deciding}, cfg, ok=False)
+                rep.violation(f"{f.key} stop-condition decided-by={deciding}",
+                              f"the upward walk of find_config_file is no longer stopped by `Some(directory) == root || "
+                              f"parent.is_none()` (equality tests with the root: {len(eqs)}, is_none tests: {len(isn)}; the "
+                              f"branch is decided by {deciding}): for a directory that is not below the search root a "
+                              f"different test stops the walk early or never", f.loc(), cfg)
+                shape_ok = False
+            if shape_ok:
                 # the directory itself is looked up before anything else, with the directory parameter
                 dl = f.names.get("directory", {}).get("l")
                 ok = f.dominates(look[0], rec[0][0]) and f.dominates(look[0], xdg[0]) and \
